@@ -21,7 +21,9 @@ import shutil
 import tempfile
 from decimal import Decimal
 
-from mc.explore import V, HarnessError, repo_root
+from collections import OrderedDict
+
+from mc.explore import V, HarnessError, repo_root, lattice, lattice_size
 from mc.ref import io_ref as R
 
 ID = "C17"
@@ -244,8 +246,7 @@ def _phonon_case(case):
                 for f in ("P", "V", "E"):
                     if not abs(a[f] - r[f]) <= _tol(r[f], DEC[f]):
                         viol.append(V(f"c17:phonon:written-label:{f}", f"value labelled {f}= of volume {iv} is {a[f]}, data has {r[f]}"))
-    nslots = nv * (3 + nq * (3 + np_)) + 4 * nq
-    return {"viol": viol, "nontrivial": nslots >= 10,
+    return {"viol": viol, "nontrivial": True,
             "outcome": f"phonon/{fam}/" + ("exact" if lossy == 0 else "rounded") if not viol else "violation",
             "key": f"ph{shape}{fam}{nm},{na},{case['comment']}"}
 
@@ -410,10 +411,6 @@ SYSTEM_NAMES = ["triclinic", "monoclinic", "orthorhombic", "tetragonal7", "tetra
                 "hexagonal", "cubic"]
 NUMSTYLES = ["float", "int", "intV", "longdec"]
 GIVEN = ["independent", "all-nonzero"]
-FILL_CASE = ["c", "C"]
-FILL_ORDER = ["voigt", "reversed"]
-FILL_NV = [1, 4]
-FILL_LAYOUTS = ["plain", "crlf-tabs"]
 
 # "longdec" inputs carry 9 decimals; the command prints 6.  DESIGN §5 allows half a unit in the last
 # printed digit for printed tables, so this is compared at the printed precision and *counted* (evidence
@@ -441,7 +438,7 @@ def fill_table(system, numstyle, given, case_letter, order, nv, lattice, layout)
         row = {}
         for p in indep:
             ip = R.VOIGT_PAIRS.index(p)
-            x = Decimal("40.0") + Decimal("23.17") * (20 - ip) + Decimal("5.31291") * iv + Decimal("0.137") * ((ip * 7) % 5)
+            x = Decimal("40.0") + Decimal("23.17") * (20 - ip) + Decimal("2.31291") * iv + Decimal("0.137") * ((ip * 7) % 5)
             if p in ((1, 4), (2, 5), (3, 6), (4, 6), (1, 6)):
                 x = -x
             if numstyle == "int":
@@ -630,7 +627,8 @@ def _fill_case(case):
             ename = type(exc).__name__ if exc is not None else f"exit{code}"
             viol.append(V(f"c17:fill:raises:{ename}:{numstyle}-columns",
                           f"`cij fill -s {system}` on a sufficient, consistent table ({numstyle} numbers, {case['given']} components "
-                          f"given, nv={case['nv']}) ended with exit code {code}, {exc!r}; stdout so far {out1[:120]!r}"))
+                          f"given, nv={case['nv']}) ended with exit code {code}, {exc!r}; stdout so far {out1[:120]!r}; "
+                          f"input file: {text[:400]!r}"))
             return {"viol": viol, "outcome": f"fill-raises/{ename}", "key": _fill_key(case)}
         strict_all = STRICT_LONG_DECIMALS
         got1, op1 = _check_fill_output(out1, in_parse, info["full"], info["volumes"], system, "fill", viol, d, "out1", strict_all)
@@ -784,11 +782,16 @@ def _shipped_case(case):
                     viol.append(V("c17:shipped-fill:lattice-block", f"{case['path']}: lattice block not verbatim"))
                 if op["volumes"] != rp["volumes"]:
                     viol.append(V("c17:shipped-fill:volumes", f"{op['volumes']} != {rp['volumes']}"))
-                ed2 = read_elast_data(path)
-                apply_symetry_on_elast_data(ed2, {"system": system})
-                dif, _ = _elast_plain(ed2)
+                try:
+                    ed2 = read_elast_data(path)
+                    apply_symetry_on_elast_data(ed2, {"system": system})
+                    dif, _ = _elast_plain(ed2)
+                except Exception as e:
+                    viol.append(V(f"c17:shipped-fill:differential-raises:{type(e).__name__}",
+                                  f"apply_symetry_on_elast_data(read_elast_data({case['path']})) raised {e!r}"))
+                    dif = {"rows": []}
                 bad = []
-                for iv in range(rp["nv"]):
+                for iv in range(min(rp["nv"], len(dif["rows"]), len(op["rows"]))):
                     a, b = op["rows"][iv], dif["rows"][iv]
                     for p in sorted(set(a) | set(b)):
                         tok = op["row_tokens"][iv][1 + op["keys"].index(p)] if p in a else "0"
@@ -808,15 +811,6 @@ def _shipped_case(case):
 
 def run_case(case):
     kind = case["kind"]
-    if kind == "batch":
-        viol, outcomes, nontrivial = [], {}, False
-        for c in case["cases"]:
-            r = run_case(c)
-            for v in r.get("viol", []):
-                viol.append(V(v["sig"], v["msg"] + f"  [sub-case {c}]"))
-            nontrivial = nontrivial or r.get("nontrivial", True)
-            outcomes[r.get("outcome", "ok")] = outcomes.get(r.get("outcome", "ok"), 0) + 1
-        return {"viol": viol, "nontrivial": nontrivial, "outcome": "|".join(sorted(outcomes))}
     if kind == "phonon":
         return _phonon_case(case)
     if kind == "static":
@@ -839,20 +833,26 @@ def static_cases():
             for lay in STATIC_LAYOUTS]
 
 
+FILL_MINOR = OrderedDict([("letter", ["c", "C"]), ("order", ["voigt", "reversed"]), ("nv", [4, 1, 9]),
+                          ("layout", ["plain", "crlf-tabs", "padded"])])
+
+
 def fill_cases(quick):
+    """systems x number styles x given x lattice block: full product in both tiers.  The presentation
+    dimensions (letter case, column order, n_V, layout) form a deviation lattice: quick walks it to
+    1 deviation from the default (and runs the full second-operation alphabet at the default only),
+    thorough walks the full product with the full second-operation alphabet everywhere."""
+    minors = [(dict(cfg), k) for cfg, k in lattice(FILL_MINOR, 1 if quick else None)]
     out = []
     for s in SYSTEM_NAMES:
         ops = chain_ops(s)
         for ns in NUMSTYLES:
             for g in GIVEN:
-                for letter in FILL_CASE:
-                    for o in FILL_ORDER:
-                        for nv in FILL_NV:
-                            for lat in (False, True):
-                                for lay in FILL_LAYOUTS:
-                                    out.append({"kind": "fill", "system": s, "numstyle": ns, "given": g, "letter": letter,
-                                                "order": o, "nv": nv, "lattice": lat, "layout": lay,
-                                                "chain": ops[:1] if quick and (lay != "plain" or o != "voigt") else ops})
+                for lat in (0, 1):
+                    for cfg, k in minors:
+                        out.append({"kind": "fill", "system": s, "numstyle": ns, "given": g, "lattice": lat,
+                                    "letter": cfg["letter"], "order": cfg["order"], "nv": cfg["nv"], "layout": cfg["layout"],
+                                    "chain": ops if (not quick or k == 0) else ops[:1]})
     return out
 
 
@@ -863,16 +863,19 @@ def shipped_cases():
 
 def explore(ctx):
     ctx.rule = (
-        "mode A, full products in both tiers. phonon: 27 shapes (n_V x n_q x n_p in {1,2,12}x{1,2,10}x{3,6,60}) x 4 value "
+        "mode A. phonon: 27 shapes (n_V x n_q x n_p in {1,2,12}x{1,2,10}x{3,6,60}) x 4 value "
         "families (tiny: 0, +-k*1e-6 and 3e-7 below the print precision; unit: +-1.5 outwards; large: +-99999.123456 "
         "inwards; physical: descending V, negative E, negative acoustic frequencies at Gamma) x 4 (nm,na) x 2 comment "
         "lines, every slot of a data set holding a distinct number. static: 4 component subsets x 3 column orders x 6 "
         "column spellings x lattice block absent/present x n_V in {1,2,9} x 3 shipped presentations (blanks, padded, "
         "CRLF+tabs), every slot distinct. fill: 9 systems x 4 number styles x {independent, all non-vanishing} "
-        "components given x c/C x 2 orders x n_V in {1,4} x lattice block x LF/CRLF; mode B: histories of length 2 "
-        "(second `fill` over the enabled systems: same, triclinic, sufficient sub-symmetries). shipped example files: "
-        "cij reader against the independent parser, and the command on each shipped table. A case is non-trivial when "
-        "it holds >= 10 numeric slots (all but the smallest phonon shapes trivially do).")
+        "components given x lattice block (full product) x deviation lattice over presentation {c/C, column order, n_V in "
+        "{4,1,9}, layout in {plain, CRLF+tabs, padded}}: bound 1 in quick, full product in thorough; mode B: histories of "
+        "length 2 (second `fill` over the enabled systems: same, triclinic, sufficient sub-symmetries; in quick the full "
+        "second alphabet only at the default presentation, `same` elsewhere). phonon and static products are complete in "
+        "both tiers. shipped example files: cij reader against the independent parser, and the command on each shipped "
+        "table. Every case is non-trivial (the smallest data set has 13 distinct numeric slots) except a shipped file "
+        "that is absent or empty in the tree.")
     ctx.assumptions = [
         "CPython float()/'%f' are correctly rounded (trusted base)",
         "phonon file: written precision = the stated writer formats (P/V/E %12.6f, q coordinates %10.4f, frequencies "
@@ -893,23 +896,26 @@ def explore(ctx):
     fi = fill_cases(ctx.quick)
     sh = shipped_cases()
 
-    # static cases are ~1 ms each: batch them so that the pool overhead does not dominate
-    st_batches = [{"kind": "batch", "cases": st[i:i + 36]} for i in range(0, len(st), 36)]
+    # (static cases cost ~3 ms each; the engine's map chunks of up to 64 cases keep the pool overhead negligible)
     ctx.run(MOD, "run_case", ph, part="phonon-roundtrip")
-    ctx.run(MOD, "run_case", st_batches, part="static-read", states=len(st), transitions=len(st))
+    ctx.run(MOD, "run_case", st, part="static-read")
     n_hist = sum(1 + len(c["chain"]) for c in fi)
     ctx.run(MOD, "run_case", fi, part="fill-command+chain", states=n_hist, transitions=n_hist)
+    full_minor, _ = lattice_size(FILL_MINOR, None)
+    done_minor, _ = lattice_size(FILL_MINOR, 1 if ctx.quick else None)
+    if done_minor < full_minor:
+        ctx.exhaustive = False      # engine convention: a deviation lattice walked to a bound below its full product
     ctx.run(MOD, "run_case", sh, part="shipped-files")
 
     ctx.notes["alphabets"] = {
         "phonon": {"shapes": len(SHAPES), "families": len(FAMILIES), "nm_na": len(NMNA), "comments": len(COMMENTS),
                    "cases": len(ph), "largest_data_set_slots": 12 * (3 + 10 * 63) + 40},
         "static": {"subsets": {k: len(v) for k, v in SUBSETS.items()}, "orders": len(ORDERS), "spellings": NAMINGS,
-                   "lattice": 2, "n_V": STATIC_NV, "layouts": STATIC_LAYOUTS, "cases": len(st), "batches": len(st_batches)},
-        "fill": {"systems": len(SYSTEM_NAMES), "number_styles": NUMSTYLES, "given": GIVEN, "letter": FILL_CASE,
-                 "orders": FILL_ORDER, "n_V": FILL_NV, "lattice": 2, "layouts": FILL_LAYOUTS, "cases": len(fi),
-                 "histories_depth_le_2": n_hist, "chain_ops": {s: chain_ops(s) for s in SYSTEM_NAMES},
-                 "chain_reduced_in_quick": bool(ctx.quick)},
+                   "lattice": 2, "n_V": STATIC_NV, "layouts": STATIC_LAYOUTS, "cases": len(st)},
+        "fill": {"systems": len(SYSTEM_NAMES), "number_styles": NUMSTYLES, "given": GIVEN, "lattice": 2,
+                 "presentation_lattice": {"dims": {k: v for k, v in FILL_MINOR.items()}, "bound": 1 if ctx.quick else len(FILL_MINOR),
+                                          "configs_in_bound": done_minor, "full_product": full_minor},
+                 "cases": len(fi), "histories_depth_le_2": n_hist, "chain_ops": {s: chain_ops(s) for s in SYSTEM_NAMES}},
         "shipped": [c["path"] for c in sh],
     }
     ctx.notes["fill_outcomes"] = {k: v for k, v in ctx.outcomes.items() if k.startswith("fill")}
